@@ -8,7 +8,7 @@ RULE = ("chains of 1e3 / 1e4 / 5e4 (thorough 2e5) sequential ops of mixed kinds 
         "tanh-free so that the exact gradient is the product of the factors), wide graphs (fan-in of 2000 terms), ladder graphs x<-x+x of depth "
         "60 (2^60 paths, 60 nodes), run at the interpreter's default recursion limit with the backward-trace monitor (every recorded op exactly "
         "once, consumer before operand); work measured as Python function calls during backward (sys.setprofile) at N and 2N ops - ratio must "
-        "be <= 2.3; untracked loops of 1e3-1e5 updates inside no_grad and from operands that do not require grad with the live-tensor count "
+        "be <= 2.3 (also for a single op with N operands: stack / concat, and N-term sums); untracked loops of 1e3-1e5 updates inside no_grad (plain, with the carried value combined directly with a parameter, through F.linear), inside retain_grads and from operands that do not require grad with the live-tensor count "
         "(WeakSet registry, after gc.collect()) sampled every 10% - it must not grow; weak references to operands of untracked results must "
         "die. distinct key = (scenario, size, op mix seed); non-trivial = size >= 1000")
 ASSUMPTIONS = ["linearity is decided on counted Python calls, never on wall-clock time; the wall-clock watchdog only makes a run inconclusive",
